@@ -521,8 +521,32 @@ class propagator_unrestricted(propagator_restricted):
         return hash(tuple(self.__dict__.values()))
 
 
+def _build_cpmc_one_body_propagator(dt: float, ham_data: dict) -> dict:
+    """One-body half step of the CPMC propagators, exp(-dt h1 / 2).
+
+    The discrete Hubbard-Stratonovich fields carry the whole interaction
+    (exp(-dt U n_up n_dn) = 1/2 sum_x B(x), including the exp(-dt U (n_up + n_dn) / 2) factor),
+    so unlike in phaseless AFQMC no normal-ordering (v0) or mean-field one-body shifts
+    built from chol belong in the kinetic propagator.
+    """
+    ham_data["exp_h1"] = jnp.array(
+        [
+            jsp.linalg.expm(-dt * ham_data["h1"][0] / 2.0),
+            jsp.linalg.expm(-dt * ham_data["h1"][1] / 2.0),
+        ]
+    )
+    return ham_data
+
+
 class propagator_cpmc(propagator_unrestricted):
     """CPMC propagator for the Hubbard model with on-site interactions."""
+
+    @partial(jit, static_argnums=(0, 2))
+    def _build_propagation_intermediates(
+        self, ham_data: dict, trial: wave_function, wave_data: dict
+    ) -> dict:
+        ham_data = super()._build_propagation_intermediates(ham_data, trial, wave_data)
+        return _build_cpmc_one_body_propagator(self.dt, ham_data)
 
     def init_prop_data(
         self,
@@ -1241,6 +1265,13 @@ class propagator_cpmc_nn(propagator_cpmc, propagator_unrestricted):
 @dataclass
 class propagator_cpmc_nn_slow(propagator_unrestricted):
     neighbors: Optional[tuple] = None
+
+    @partial(jit, static_argnums=(0, 2))
+    def _build_propagation_intermediates(
+        self, ham_data: dict, trial: wave_function, wave_data: dict
+    ) -> dict:
+        ham_data = super()._build_propagation_intermediates(ham_data, trial, wave_data)
+        return _build_cpmc_one_body_propagator(self.dt, ham_data)
 
     def init_prop_data(
         self,
